@@ -305,7 +305,23 @@ def cache_cases(draw):
     return case
 
 
+def long_line_cache_cases(tier, shard, nshards):
+    from vf.props.c04 import long_line_cases
+
+    for c in long_line_cases(tier, shard, nshards):
+        if c["fasta"]["records"][0][3] >= 65536:
+            yield {"fasta": c["fasta"], "buffer": c["buffer"]}
+
+
+def huge_cases(tier, shard, nshards):
+    yield from c05.huge_cases(tier, shard, nshards)
+
+
 SUBS = [
+    Sub("cache_long_lines", kind="enum", cases=long_line_cache_cases, body=body_cache,
+        budget={"quick": 28, "thorough": 28}, desc=".agp cache of FASTA files with sequence lines of 64 KiB - 1.3 MiB"),
+    Sub("format_huge", kind="enum", cases=huge_cases, body=body_format,
+        budget={"quick": 12, "thorough": 12}, desc="format_agp on objects of 8 191 - 40 000 rows (part numbers, coordinates)"),
     Sub("format", kind="hyp", strategy=format_cases, body=body_format,
         budget={"quick": 8000, "thorough": 150000}, desc="format_agp on arbitrary assemblies"),
     Sub("built", kind="hyp", strategy=built_cases, body=body_built,
